@@ -405,8 +405,12 @@ def runC04s (c : CaseIn) : Array String := Id.run do
       if ws == ["final"] then
         match rest with
         | "honest" :: ht :: "ahead" :: rest' =>
-          let (ahead, _) := bracket rest'
-          faults := syncFaults sy cand (ahead.map nat!) ++ (if tip == ht then [] else ["no-convergence"])
+          let (ahead, rest'') := bracket rest'
+          -- rigs with real peers also report who has been asked for the headers after our tip
+          let notAsked := match rest'' with
+            | "asked" :: r3 => let (asked, _) := bracket r3; aheadNotAsked (ahead.map nat!) (asked.map nat!)
+            | _ => []
+          faults := syncFaults sy cand (ahead.map nat!) ++ (if tip == ht then [] else ["no-convergence"]) ++ notAsked
         | _ => out := out.push s!"DIFF C04 case {c.num} line {ln}: unparsable final <{obs}>"
       else
         -- mid-run only the membership clause is an invariant (a reselection may be one handler step away)
@@ -414,7 +418,8 @@ def runC04s (c : CaseIn) : Array String := Id.run do
       for f in faults do
         if !seen.contains f then
           seen := f :: seen
-          out := out.push s!"ORACLE-FAIL C04 case {c.num} line {ln}: shape={f} {f} after `{op}` ({" ".intercalate c.header}): {obs}"
+          let shape := if staleTipLevelSyncPeer (c.header.getD 1 "") then "stale-tip-higher-peer-ignored" else f
+          out := out.push s!"ORACLE-FAIL C04 case {c.num} line {ln}: shape={shape} {f} after `{op}` ({" ".intercalate c.header}): {obs}"
   return out
 
 def runCase : CaseFn := fun c =>
